@@ -225,11 +225,18 @@ mod proofs {
 		assert!(wf(&a.level_bbox[z], z));
 	}
 
-	// harness: kind=complete why="32 levels is the constant MAX_ZOOM_LEVEL" tier=thorough props=C15,C03,C08 fn=TileBBoxPyramid::include_bbox_pyramid,TileBBoxPyramid::iter_levels timeout=5400 mem=46
-	#[kani::proof]
-	#[kani::unwind(34)]
-	fn pyr_include_bbox_pyramid() {
-		let mut a = any_pyramid(); let b = any_pyramid();
+	// every well-formed pyramid whose levels other than z1 and z2 are empty in the `new_empty` encoding
+	fn sparse_pyramid(z1: usize, z2: usize) -> TileBBoxPyramid {
+		let mut p = TileBBoxPyramid::new_empty();
+		for z in [z1, z2] {
+			let b = &mut p.level_bbox[z];
+			b.x_min = kani::any(); b.y_min = kani::any(); b.x_max = kani::any(); b.y_max = kani::any();
+			kani::assume(b.x_max <= b.max && b.y_max <= b.max);
+		}
+		p
+	}
+	fn include_bbox_pyramid_check(z1: usize, z2: usize) {
+		let mut a = any_pyramid(); let b = sparse_pyramid(z1, z2);
 		let old = a.clone();
 		a.include_bbox_pyramid(&b);
 		let (z, x, y) = probe();
@@ -239,6 +246,16 @@ mod proofs {
 		assert!(has(&a.level_bbox[z], x, y) == expect);
 		assert!(wf(&a.level_bbox[z], z));
 	}
+	// (the harness over two fully symbolic 32-level pyramids ended with a CBMC resource failure at 12, 24 and 46 GB: the level-wise law is
+	// `pyr_include_bbox` below, complete; this one exercises the loop of include_bbox_pyramid over iter_levels)
+	// harness: kind=bounded bound="receiver: any well-formed pyramid; argument: any pyramid whose non-empty levels are among {0, 31}" tier=thorough props=C15,C03,C08 fn=TileBBoxPyramid::include_bbox_pyramid,TileBBoxPyramid::iter_levels timeout=3000 mem=24
+	#[kani::proof]
+	#[kani::unwind(34)]
+	fn pyr_include_bbox_pyramid_levels_0_31() { include_bbox_pyramid_check(0, 31); }
+	// harness: kind=bounded bound="receiver: any well-formed pyramid; argument: any pyramid whose non-empty levels are among {7, 8}" tier=thorough props=C15,C03,C08 fn=TileBBoxPyramid::include_bbox_pyramid,TileBBoxPyramid::iter_levels timeout=3000 mem=24
+	#[kani::proof]
+	#[kani::unwind(34)]
+	fn pyr_include_bbox_pyramid_levels_7_8() { include_bbox_pyramid_check(7, 8); }
 
 	// harness: kind=complete why="32 levels is the constant MAX_ZOOM_LEVEL" tier=thorough props=C15,C03,C08 fn=TileBBoxPyramid::include_bbox timeout=1800 mem=24
 	#[kani::proof]
